@@ -659,6 +659,14 @@ theorem step_ready (s : State) (op : Op) (h : Ready s) (hl : LinInv s) (ho : Ori
     · have h1 := setConn_ready h c (fun k => { k with isOpen := false }) (fun _ => rfl) (Or.inl (fun _ => Or.inl rfl))
       exact h1.sub_eq (Sub.of_eq rfl rfl rfl rfl rfl rfl) rfl
     · exact h
+  | connFail c =>
+    simp only [step]
+    split
+    · split
+      · have h1 := setConn_ready h c (fun k => { k with isOpen := false }) (fun _ => rfl) (Or.inl (fun _ => Or.inl rfl))
+        exact h1.sub_eq (Sub.of_eq rfl rfl rfl rfl rfl rfl) rfl
+      · exact h
+    · exact h
   | run => exact runAll_ready _ s h ho
   | tick ms => exact h.sub_eq (Sub.of_eq rfl rfl rfl rfl rfl rfl) rfl
   | mark => exact h
